@@ -1206,6 +1206,15 @@ theorem varLoop_refines (rx : RxOracle) (req : Req) : ∀ (vs : List VarCfg) (it
       · simp
 
 
+theorem dsl_all (req : Req) : ∀ ds : List DslCfg,
+    ((ds.filterMap (fun d => if !d.empty && d.ok then some d.id else none)).all (fun i => req.dsl i == some true))
+      = ds.all (fun d => d.empty || !d.ok || req.dsl d.id == some true)
+  | [] => rfl
+  | d :: r => by
+    have ih := dsl_all req r
+    rw [List.filterMap_cons, List.all_cons, ← ih]
+    cases hde : d.empty <;> cases hdo : d.ok <;> rfl
+
 /-- **a built rule matches exactly when all matchers of the configured route hold** -/
 theorem rule_refines (rx : RxOracle) (req : Req) {m : MatchCfg} {rule : Rule} (h : mkRule m = .ok rule) :
     matchRule rx req rule = ruleHolds rx req m := by
@@ -1246,6 +1255,14 @@ theorem rule_refines (rx : RxOracle) (req : Req) {m : MatchCfg} {rule : Rule} (h
           · cases h
         · rename_i hvs
           rw [if_neg hvs]
+          split at h
+          · rename_i hdsl
+            rw [if_pos hdsl]
+            injection h with h; subst h
+            simp only [matchRule]
+            exact dsl_all req m.dsl
+          rename_i hdsl
+          rw [if_neg hdsl]
           injection h with h; subst h
           simp only [createRpc, matchRule, rpcMatch_eq]
           have hkey : rpcRouteMatchKey = ['s', 'e', 'r', 'v', 'i', 'c', 'e'] := rfl
